@@ -434,9 +434,11 @@ class Ctx:
             print("KNOWN-FINDING: property=%s %s (%s)" % (self.pid, k["what"], k["id"]))
         replay = None
         if self.oracle_failures:
+            self.oracle_failures.sort(key=lambda x: len(str(x.get("input") or x.get("case") or "")))
             f = self.oracle_failures[0]
             replay = self.write_replay({"property": self.pid, "kind": "failing-input", "failure": f,
-                                        "others": self.oracle_failures[1:6],
+                                        "others": [{"what": o["what"], "input": str(o.get("input"))[:300]} for o in self.oracle_failures[1:6]],
+                                        "failing_inputs_found": len(self.oracle_failures),
                                         "broken_correspondence": self.disagreements[:3],
                                         "proof_problems": self.proof_problems, "seed": self.seed, "tier": self.tier})
             print("VIOLATION property=%s replay=%s" % (self.pid, replay))
